@@ -128,6 +128,8 @@ def same(a, b):
         return False
     if isinstance(a, str) or isinstance(b, str):
         return a == b
+    if isinstance(a, float) and isinstance(b, float) and a != a and b != b:
+        return True          # NaN from both the warm and the fresh object: the same (history-independent) answer
     try:
         return num_close(a, b)
     except OverflowError:
